@@ -774,6 +774,18 @@ theorem wf_iff (R : Nat) (g : Graph) (L : List Id) :
     · exact Or.inl h
     · exact Or.inr (this.2 h)
 
+theorem C10_wf_meaning_aux (R : Nat) (g : Graph) (L : List Id) :
+    WF R g L ↔
+      ((g.keys.Nodup ∧ g.vecs.Nodup ∧ (∀ i, i ∈ g.keys ↔ i ∈ g.vecs) ∧
+        (∀ n ∈ g.nodes, (∀ t ∈ n.2, t ≠ n.1 ∧ t ∈ g.keys) ∧ (n.1 ≠ entry → n.2.length ≤ R))) ∧
+       L.Nodup ∧ entry ∉ L ∧ (∀ i, i ∈ g.keys ↔ (i = entry ∨ i ∈ L)) ∧ (∀ i ∈ L, i ≤ g.maxId)) := by
+  rw [wf_iff]
+  constructor
+  · rintro ⟨⟨h1, h2, h3, h4⟩, h⟩
+    exact ⟨⟨h1, h2, h3, fun n hn => h4 n hn (fun f => f)⟩, h⟩
+  · rintro ⟨⟨h1, h2, h3, h4⟩, h⟩
+    exact ⟨⟨h1, h2, h3, fun n hn _ => h4 n hn⟩, h⟩
+
 section
 variable {D : Type} [LT D] [DecidableRel (α := D) (· < ·)]
 
